@@ -119,6 +119,8 @@ class World:
 		trx = cls(self.bind_addr, remote_addr, base_port, child_idx = child_idx,
 			clck_gen = clck_gen, pwr_meas = pwr_meas, **kw)
 		self.trx_list.add_trx(trx)
+		if not self.net.bind_log:
+			raise common.HarnessError("vnet is not attached: the transceiver bound no socket on it (udp_link no longer uses `socket.socket`?)")
 		if self.fwd is None:
 			self.fwd = burst_fwd.BurstForwarder(self.trx_list.trx_list)
 		if parent is not None:
@@ -163,9 +165,12 @@ class AppWorld:
 			signal.signal(signal.SIGINT, old_sigint)
 		capture_logging()
 		self.app_binds = list(self.net.bind_log)     # sockets bound by the application itself
+		if not self.app_binds:
+			raise common.HarnessError("vnet is not attached: the application bound no socket on it")
 		self.gen = self.app.clck_gen
 		self.breaker = vclock.VEvent(self.vt, gated = gated)
-		self.gen._breaker = self.breaker
+		if not vclock.attach(clck_gen, self.gen, self.vt, self.breaker):
+			raise common.HarnessError("cannot identify the clock generator's stop event")
 		self.nodes = []
 		for trx in self.app.trx_list.trx_list:
 			has_clck = trx.clck_gen is not None
@@ -178,7 +183,10 @@ class AppWorld:
 	def run_ticks(self, n):
 		if not self.gen.running:
 			return True
-		return self.breaker.release(n)
+		ok = self.breaker.release(n)
+		if ok and n > 0 and self.breaker.waits == 0:
+			raise common.HarnessError("virtual clock is not attached: the generator runs but never waits on the harness event")
+		return ok
 
 	def shutdown(self):
 		try:
